@@ -106,6 +106,9 @@ Section M.
           match o with Err _ => Done (Err (- EINVAL)) | Ok b' => Done (Ok b') end
         else Done (Ok b)
       else Done (Ok b)
+    else if e_num e =? c_TAG_ELEMENT_EXTENSION then
+      (* the extension number is looked at (no extension is implemented) only when the element has a body *)
+      if sizeof_libwifi_tag_extension_header <=? e_len e then let* _ := rd data in Done (Ok b) else Done (Ok b)
     else Done (Ok b).
 
   Fixpoint bss_elems (b : bss) (l : list elem) : res (outcome bss) :=
